@@ -21,6 +21,36 @@
 (*             loop's auto-release timers that are due run cancelSingleHtlc*)
 (*   Block     the chain height the links report grows by one              *)
 (*                                                                         *)
+(* An HTLC is one of five payload classes (pl): "legacy" (no MPP record,    *)
+(* no path id; a total_amount_msat in the payload is ignored), "mpp",      *)
+(* "amp", "keysend", and "blinded": an HTLC that arrived over a blinded    *)
+(* path - it carries the path id (in the place of the payment address) and *)
+(* a total amount in the final-hop payload, but no MPP record.  The path   *)
+(* id is looked up and compared like a payment address (ad: nobody's /     *)
+(* this invoice's / the other invoice's); blinded and MPP shards of one    *)
+(* invoice form ONE set.  A blinded-path invoice is, at this layer, a      *)
+(* "regular"/"hold" invoice whose payment address is handed out as path id.*)
+(*                                                                         *)
+(* The HTLC interceptor (RegistryConfig.HtlcInterceptor) is part of the    *)
+(* Notify critical section: its client may answer CancelSet for an HTLC    *)
+(* (cs = TRUE); the registry then fails that HTLC with "external           *)
+(* validation failed" and cancels every ACCEPTED HTLC of its set, the      *)
+(* invoice stays open (ApplyCancelHtlcs).  Together with Tick (MPP         *)
+(* timeout) this gives hold / regular invoices that carry canceled shards  *)
+(* of an earlier incomplete set when a later complete set is accepted,     *)
+(* settled or canceled.                                                    *)
+(*                                                                         *)
+(* Circuit keys: an HTLC is identified by the pair (short channel id,      *)
+(* HTLC id), two uint64.  The model names the keys of one behaviour 1..NC; *)
+(* `kp` names the pattern of value classes these stand for (KeyOf): plain  *)
+(* confirmed scids with small ids, alias / zero-conf scids (>= 2^63), the  *)
+(* int64 boundary 2^63-1 | 2^63, 2^64-1, HTLC ids >= 2^63, keys that       *)
+(* differ in the channel only or in the id only.  No action reads kp: the  *)
+(* specification says that a circuit key is an opaque identity and that    *)
+(* every state change of an HTLC is durable whatever its key looks like -  *)
+(* the trace specification compares the invoice READ BACK FROM THE STORE   *)
+(* after every event, under the concrete keys, with the model.             *)
+(*                                                                         *)
 (* Two invoice slots of configurable kind, NC circuit keys.  Hashes,       *)
 (* preimages and payment addresses are identified with the invoice slot    *)
 (* that owns them (h = 1..2, ad = 0 (an address nobody owns), 1..2); AMP   *)
@@ -41,9 +71,15 @@ CONSTANTS NC,            \* number of circuit keys
           RejectDelta,   \* RegistryConfig.FinalCltvRejectDelta (= delta of keysend invoices)
           MaxHeight, MaxNow,
           Amts, Tots,    \* HTLC amounts and declared totals the model checker sends ({V-1, V/2, V, V+1}, {V-1, V, V+1})
-          KeysendQuirk   \* TRUE: model processKeySend's expiry pre-check on replays (deviation D1)
+          KeysendQuirk,  \* TRUE: model processKeySend's expiry pre-check on replays (deviation D1)
+          Margins,       \* expiries sent: the required one + m - 1 for m in Margins ({0, 1, 2}; m = 2 behaves
+                         \* like m = 1 in the model)
+          ExpiredOffs    \* how far below the current height an already expired HTLC's expiry lies
+                         \* ({1, 10, 90}; any one value is representative for the model: expiries are only
+                         \* compared with height + a positive delta)
 
 VARIABLES kinds,     \* <<kind of slot 1, kind of slot 2>>: what was added with AddInvoice at start (never changes)
+          kp,        \* name of the circuit-key pattern of this behaviour (never changes, read by no action)
           inv,       \* slot -> [ex, st, paid, val]                 the durable invoice
           htlc,      \* circuit -> HTLC record on its invoice, or NoHtlc (Invoice.Htlcs)
           sub,       \* circuits with a live hodl subscription      (hodlSubscriptions)
@@ -52,7 +88,7 @@ VARIABLES kinds,     \* <<kind of slot 1, kind of slot 2>>: what was added with 
           height, now,
           pend,      \* keysend HTLCs between processKeySend (invoice inserted) and the locked part of their call
           last       \* observation of the last step: direct resolution + hodl deliveries
-vars == <<kinds, inv, htlc, sub, timer, setOwner, height, now, pend, last>>
+vars == <<kinds, kp, inv, htlc, sub, timer, setOwner, height, now, pend, last>>
 
 C   == 1..NC
 Inv == 1..2
@@ -86,7 +122,28 @@ WKeysend == "invalid keysend parameters"
 WMppInProgress == "mpp reception in progress"
 WType == "htlc invoice type mismatch"
 WAmpRecon == "amp reconstruction failed"
+WExternal == "external validation failed"
 
+(***************************************************************************)
+(* The circuit-key domain.  chan: "low" a confirmed scid (1:2:3), "i63m" = *)
+(* 2^63-1, "i63" = 2^63, "alias" = an scid of the alias range (block       *)
+(* height 16_000_000, > 2^63), "alias2" another one, "max" = 2^64-1.       *)
+(* id: "n" = the circuit's number, "same" = 7 for every circuit, "i63m" =  *)
+(* 2^63-1, "i63" = 2^63, "i63n" = 2^63 + number, "max" = 2^64-1.           *)
+(***************************************************************************)
+KeyPatterns == {"plain", "alias", "chanonly", "edge", "bigid", "mixed"}
+KeyOf(pat, c) ==
+  LET K(ch, id) == [ch |-> ch, id |-> id, n |-> IF id \in {"n", "i63n"} THEN c ELSE 0] IN
+  CASE pat = "plain"    -> K("low", "n")
+    [] pat = "alias"    -> K("alias", "n")
+    [] pat = "chanonly" -> K(CASE c = 1 -> "low" [] c = 2 -> "alias" [] c = 3 -> "i63m" [] OTHER -> "i63", "same")
+    [] pat = "edge"     -> CASE c = 1 -> K("i63m", "n") [] c = 2 -> K("i63", "n") [] c = 3 -> K("max", "n") [] OTHER -> K("max", "max")
+    [] pat = "bigid"    -> CASE c = 1 -> K("low", "i63m") [] c = 2 -> K("low", "i63") [] c = 3 -> K("alias", "i63n") [] OTHER -> K("alias", "max")
+    [] pat = "mixed"    -> CASE c = 1 -> K("alias", "n") [] c = 2 -> K("low", "n") [] c = 3 -> K("alias2", "n") [] OTHER -> K("alias", "i63n")
+KeysDistinct == \A pat \in KeyPatterns : \A c, d \in 1..4 : c # d => KeyOf(pat, c) # KeyOf(pat, d)
+ASSUME KeysDistinct
+
+HasTot(pl) == pl \in {"mpp", "amp", "blinded"}      \* the payload declares the total of a set
 NoHtlc == [k |-> 0, pl |-> "none", amt |-> 0, tot |-> 0, exp |-> 0, ah |-> 0, at |-> 0,
            st |-> "none", set |-> "none", good |-> TRUE, ad |-> 0, h |-> 0]
 NoMsg  == [kd |-> "none", why |-> ""]
@@ -96,6 +153,7 @@ NoMsgs == [d \in C |-> NoMsg]
 InitInv(k) == [ex |-> Kind(k) # "keysend", st |-> "open", paid |-> 0,
                val |-> IF Kind(k) \in {"zeroamt", "keysend"} THEN 0 ELSE V]
 Init == /\ kinds = <<K1, K2>>
+        /\ kp = "plain"
         /\ inv = [k \in Inv |-> InitInv(k)]
         /\ htlc = [c \in C |-> NoHtlc]
         /\ sub = {} /\ timer = {}
@@ -129,16 +187,17 @@ ByHash(i, p) == IF p.h # 0 /\ i[p.h].ex THEN p.h ELSE 0
 ByAddr(i, p) == IF p.ad # 0 /\ i[p.ad].ex /\ HasAddr(p.ad) THEN p.ad ELSE 0
 Target(i, p) ==
   CASE p.pl \in {"legacy", "keysend"} -> ByHash(i, p)
-    [] p.pl = "mpp" -> IF ByHash(i, p) # 0 /\ ByAddr(i, p) # 0
+    [] p.pl \in {"mpp", "blinded"} ->
+                       IF ByHash(i, p) # 0 /\ ByAddr(i, p) # 0
                          THEN (IF ByHash(i, p) = ByAddr(i, p) THEN ByHash(i, p) ELSE 0)
                          ELSE ByHash(i, p)
     [] p.pl = "amp" -> ByAddr(i, p)
-RefSQLDiffers(i, p) == p.pl = "mpp" /\ ByHash(i, p) # 0 /\ ByAddr(i, p) = 0
+RefSQLDiffers(i, p) == p.pl \in {"mpp", "blinded"} /\ ByHash(i, p) # 0 /\ ByAddr(i, p) = 0
 
 ExpSoon(p, k) == p.exp < height + RejectDelta \/ p.exp < height + Delta(k)
 
 NewRec(p, k) == [k |-> k, pl |-> p.pl, amt |-> p.amt,
-                 tot |-> IF p.pl \in {"mpp", "amp"} THEN p.tot ELSE 0,
+                 tot |-> IF HasTot(p.pl) THEN p.tot ELSE 0,
                  exp |-> p.exp, ah |-> height, at |-> now, st |-> "accepted",
                  set |-> IF p.pl = "amp" THEN p.set ELSE "none", good |-> p.good,
                  ad |-> p.ad, h |-> p.h]
@@ -238,8 +297,27 @@ ApplyCancelSet(i, p, k) ==
        ELSE Out(i1, f1, sub \ nt, timer, setOwner, "fail", WAmpRecon, Msgs(nt, "fail", WAmpRecon))
 
 (***************************************************************************)
+(* The interceptor client answered CancelSet for HTLC p (invoiceregistry.go *)
+(* notifyExitHopHtlcLocked, `if cancelSet`): p itself is failed and never  *)
+(* recorded; on an open invoice every accepted HTLC of p's set (non-AMP:   *)
+(* all HTLCs of the invoice, AMP: the set id) is canceled by a             *)
+(* CancelHTLCsUpdate (cancelHTLCs; AMP: cancelHtlcsAmp lowers AmtPaid), the *)
+(* invoice stays open, and - "external validation failed" being a set      *)
+(* failure - the subscribed links of the canceled HTLCs are told.          *)
+(***************************************************************************)
+ApplyCancelHtlcs(i, p, k) ==
+  LET s   == IF p.pl = "amp" THEN p.set ELSE "none"
+      nw  == In(htlc, k, s, "accepted")
+      f1  == [d \in C |-> IF d \in nw THEN [htlc[d] EXCEPT !.st = "canceled"] ELSE htlc[d]]
+      dec == AmtSum(htlc, nw)
+      i1  == IF IsAmp(k) THEN [i EXCEPT ![k].paid = IF i[k].paid >= dec THEN i[k].paid - dec ELSE 0] ELSE i
+      nt  == nw \cap sub
+  IN IF i[k].st # "open" THEN Same(i, "fail", WNotOpen)
+     ELSE Out(i1, f1, sub \ nt, timer, setOwner, "fail", WExternal, Msgs(nt, "fail", WExternal))
+
+(***************************************************************************)
 (* NotifyExitHopHtlc for a circuit key c that is on no invoice.            *)
-(* p = [c, pl, h, ad, amt, tot, exp, set, good]                            *)
+(* p = [c, pl, h, ad, amt, tot, exp, set, good, cs]                        *)
 (***************************************************************************)
 \* processKeySend (outside the registry lock): reject a bad keysend, else insert the just-in-time invoice
 KsBad(p) == p.pl = "keysend" /\ (~p.good \/ p.exp < height + RejectDelta)
@@ -252,6 +330,8 @@ LockedOut(i0, p) ==
       vd == IF p.pl \in {"legacy", "keysend"} THEN Legacy(i0, p, k) ELSE Mpp(i0, p, k)
   IN IF k = 0 THEN Same(i0, "fail", WNotFound)
      ELSE IF RefSQLDiffers(i0, p) THEN [Same(i0, "fail", vd.why) EXCEPT !.alt = WNotFound]   \* vd.v = "fail" here
+          \* (never together with cs: there the two stores would differ in STATE, see Params and the limits)
+     ELSE IF p.cs THEN ApplyCancelHtlcs(i0, p, k)
      ELSE CASE vd.v = "fail" -> Same(i0, "fail", vd.why)
             [] vd.v = "cancelset" -> ApplyCancelSet(i0, p, k)
             [] vd.v = "add" -> IF IsAmp(k) THEN ApplyAddAmp(i0, p, k, vd) ELSE ApplyAdd(i0, p, k, vd)
@@ -276,7 +356,7 @@ ReplayOut(c) ==
 Commit(o, a, c, k) ==
   /\ inv' = o.inv /\ htlc' = o.htlc /\ sub' = o.sub /\ timer' = o.timer /\ setOwner' = o.setOwner
   /\ last' = [a |-> a, c |-> c, k |-> k, res |-> o.res, why |-> o.why, alt |-> o.alt, hodl |-> o.hodl]
-  /\ UNCHANGED kinds
+  /\ UNCHANGED <<kinds, kp>>
 
 \* the whole call in one step (no other call in between)
 Notify(p) == /\ htlc[p.c] = NoHtlc /\ \A x \in pend : x.c # p.c
@@ -289,7 +369,7 @@ KsInsert(p) == /\ p.pl = "keysend" /\ ~KsBad(p)
                /\ inv' = KsIns(p)
                /\ pend' = pend \cup {p}
                /\ last' = [a |-> "KsInsert", c |-> p.c, k |-> 0, res |-> "none", why |-> "", alt |-> "", hodl |-> NoMsgs]
-               /\ UNCHANGED <<kinds, htlc, sub, timer, setOwner, height, now>>
+               /\ UNCHANGED <<kinds, kp, htlc, sub, timer, setOwner, height, now>>
 NotifyLocked(p) == /\ p \in pend
                    /\ Commit(LockedOut(inv, p), "Notify", p.c, 0)
                    /\ pend' = pend \ {p}
@@ -354,26 +434,42 @@ Block == /\ height < MaxHeight /\ pend = {}
 (* only when such an invoice exists.                                       *)
 \* expiries: the required margin -1 / 0 / +1, and HTLCs that have ALREADY expired (re-forwarded after
 \* downtime, or a malicious peer): one block, ten blocks and far below the current height
-Expired == {height - 1, height - 10, height - 90}
-Exps(k) == {height + Need(k) + m : m \in {-1, 0, 1}} \cup Expired
-ExpsAmp(k) == {height + Need(k) + m : m \in {-1, 0}} \cup Expired
+Expired == {height - o : o \in ExpiredOffs}
+Exps(k) == {height + Need(k) + m - 1 : m \in Margins} \cup Expired
+ExpsAmp(k) == {height + Need(k) + m - 1 : m \in Margins \cap {0, 1}} \cup Expired
 HasKind(x) == kinds[1] = x \/ kinds[2] = x
+P(c, pl, h, ad, a, t, e, st, g) ==
+  [c |-> c, pl |-> pl, h |-> h, ad |-> ad, amt |-> a, tot |-> t, exp |-> e, set |-> st, good |-> g, cs |-> FALSE]
 Params(c) ==
-     UNION {{[c |-> c, pl |-> "legacy", h |-> h, ad |-> 0, amt |-> a, tot |-> 0, exp |-> e, set |-> "none", good |-> TRUE]
-               : a \in Amts, e \in Exps(h)} : h \in Inv}
-  \cup UNION {{[c |-> c, pl |-> "mpp", h |-> h, ad |-> ad, amt |-> a, tot |-> t, exp |-> e, set |-> "none", good |-> TRUE]
-               : ad \in 0..2, a \in Amts, t \in Tots, e \in Exps(h)} : h \in Inv}
+     \* legacy: no MPP record, no path id; with or without a total_amount_msat in the payload
+     UNION {{P(c, "legacy", h, 0, a, t, e, "none", TRUE) : a \in Amts, t \in {0, V}, e \in Exps(h)} : h \in Inv}
+  \cup UNION {{P(c, pl, h, ad, a, t, e, "none", TRUE)
+               : pl \in {"mpp", "blinded"}, ad \in 0..2, a \in Amts, t \in Tots, e \in Exps(h)} : h \in Inv}
   \cup (IF HasKind("amp")
-          THEN UNION {{[c |-> c, pl |-> "amp", h |-> 0, ad |-> sa[2], amt |-> a, tot |-> t, exp |-> e, set |-> sa[1], good |-> g]
+          THEN UNION {{P(c, "amp", 0, sa[2], a, t, e, sa[1], g)
                         : a \in Amts, t \in Tots \ {V - 1}, e \in ExpsAmp(IF sa[2] = 0 THEN 1 ELSE sa[2]),
                           g \in {x \in BOOLEAN : x => c \in Members(sa[1])}} : sa \in Sets \X (0..2)}
           ELSE {})
   \cup (IF HasKind("keysend")
-          THEN UNION {{[c |-> c, pl |-> "keysend", h |-> h, ad |-> 0, amt |-> a, tot |-> 0, exp |-> e, set |-> "none", good |-> g]
+          THEN UNION {{P(c, "keysend", h, 0, a, 0, e, "none", g)
                         : a \in Amts, e \in Exps(h), g \in BOOLEAN} : h \in {x \in Inv : Kind(x) = "keysend"}}
           ELSE {})
+\* HTLCs for which the interceptor client answers CancelSet.  Nothing but the invoice the HTLC resolves to and
+\* its set matters then, so one HTLC per (payload class, invoice, set) is sent; its reference is unambiguous
+\* (right address / path id) because for an address that is indexed for no invoice the KV store would cancel
+\* the set of the invoice the hash names while the SQL store finds no invoice (see RefSQLDiffers).
+CsParams(c) ==
+  {[x EXCEPT !.cs = TRUE] : x \in
+        {P(c, "legacy", h, 0, V, 0, height + Need(h), "none", TRUE) : h \in Inv}
+   \cup {P(c, pl, h, h, 2, V, height + Need(h), "none", TRUE)
+           : pl \in {"mpp", "blinded"}, h \in {x \in Inv : Kind(x) # "keysend"}}
+   \cup (IF HasKind("amp")
+           THEN {P(c, "amp", 0, sa[2], 2, V, height + Need(sa[2]), sa[1], c \in Members(sa[1]))
+                  : sa \in Sets \X {x \in Inv : Kind(x) # "keysend"}}
+           ELSE {})
+   \cup {P(c, "keysend", h, 0, V, 0, height + Need(h), "none", TRUE) : h \in {x \in Inv : Kind(x) = "keysend"}}}
 
-Next == \/ \E c \in C : \E p \in Params(c) : Notify(p) \/ (pend = {} /\ KsInsert(p))
+Next == \/ \E c \in C : \E p \in Params(c) \cup CsParams(c) : Notify(p) \/ (pend = {} /\ KsInsert(p))
         \/ \E p \in pend : NotifyLocked(p)
         \/ \E c \in C : Replay(c)
         \/ \E k \in Inv : Settle(k) \/ Cancel(k)
@@ -388,13 +484,15 @@ Spec == Init /\ [][Next]_vars
 (***************************************************************************)
 Recorded == {c \in C : htlc[c] # NoHtlc}
 
-\* The set an HTLC is settled with: AMP - its set id; MPP - the HTLCs of the invoice that
-\* carry an MPP record; an HTLC without MPP record pays alone and declares its own amount.
+\* The set an HTLC is settled with: AMP - its set id; MPP / blinded path - the HTLCs of the invoice
+\* that declare a total (MPP record or blinded-path payload); an HTLC without either pays alone and
+\* declares its own amount.
 SetOf(c) == LET r == htlc[c] IN
   CASE r.pl = "amp" -> {d \in C : htlc[d].k = r.k /\ htlc[d].set = r.set /\ htlc[d].st = "settled"}
-    [] r.pl = "mpp" -> {d \in C : htlc[d].k = r.k /\ htlc[d].pl = "mpp" /\ htlc[d].st = "settled"}
+    [] r.pl \in {"mpp", "blinded"} ->
+           {d \in C : htlc[d].k = r.k /\ htlc[d].pl \in {"mpp", "blinded"} /\ htlc[d].st = "settled"}
     [] OTHER -> {c}
-Declared(c) == IF htlc[c].pl \in {"mpp", "amp"} THEN htlc[c].tot ELSE htlc[c].amt
+Declared(c) == IF HasTot(htlc[c].pl) THEN htlc[c].tot ELSE htlc[c].amt
 
 \* "settlement only when the accepted HTLCs of its set carry the invoice's payment address (whenever the
 \*  invoice requires one), declare one common total not below the invoice amount, sum to at least that total
@@ -404,7 +502,8 @@ SettledIsPaid ==
      LET k == htlc[c].k
          G == SetOf(c)
      IN /\ inv[k].ex
-        /\ \A d \in G : /\ (NeedAddr(k) \/ htlc[d].pl \in {"mpp", "amp"}) => (htlc[d].ad = k \/ htlc[d].pl = "keysend")
+        \* (an MPP / AMP record and a blinded-path payload always name an address / path id: it must be the invoice's)
+        /\ \A d \in G : /\ (NeedAddr(k) \/ HasTot(htlc[d].pl)) => (htlc[d].ad = k \/ htlc[d].pl = "keysend")
                         /\ Declared(d) = Declared(c)
                         /\ htlc[d].exp >= htlc[d].ah + Need(k)
         /\ Declared(c) >= inv[k].val
@@ -488,5 +587,8 @@ TypeOK == /\ \A k \in Inv : inv[k].st \in {"open", "accepted", "settled", "cance
 (*  O3  KV and SQL answer differently (both fail) for an MPP HTLC whose    *)
 (*      payment address is indexed for no invoice: RefSQLDiffers.          *)
 (*  O4  a keysend call is two critical sections: KsInsert / NotifyLocked.  *)
+(*  O5  the interceptor client's CancelSet is honoured on an open invoice   *)
+(*      only (otherwise the HTLC fails with "invoice no longer open") and   *)
+(*      is ignored for a replayed HTLC (Replay does not look at cs).        *)
 (***************************************************************************)
 =============================================================================
